@@ -22,7 +22,7 @@ add("C03", "exploration",
     "small-scope hypothesis (<=4 rows, 6-point grid); dtype/compressor/executor rotate over inputs in quick; pool writes run under a fixed schedule except in the thorough schedule slice",
     "bounded exhaustive enumeration of inputs x configurations on the implementation vs written data", "smallscope")
 add("C04", "fault_enumeration",
-    "Every mutating file-system operation (makedirs, create, each write, rename, remove, rmtree) issued by 14 write histories (Context.make / get_array of chain, diamond and multi-output graphs with the single-thread and threaded processors, worker pools, rechunking, bare Saver.save_from with and without thread pool, copy_to_frontend, overwrite of broken data) is enumerated from a logged fault-free run; for every operation x {ENOSPC, ENOSPC after half write, death before, death after, death with torn write} the real code is re-run, then a FRESH Context must find every type it reports stored complete and equal to the reference, the caller must have seen the I/O error, and an identical retry must succeed and leave valid data. Thorough adds a second fault during the retry.",
+    "Every mutating file-system operation (makedirs, create, each write, rename, remove, rmtree) issued by 14 write histories (Context.make / get_array of chain, diamond and multi-output graphs with the single-thread and threaded processors, worker pools, rechunking, bare Saver.save_from with and without thread pool, copy_to_frontend, overwrite of broken data) is enumerated from a logged fault-free run; for every operation x {ENOSPC, ENOSPC after half write, death before, death after, death with torn write} the real code is re-run, then a FRESH Context must find every type it reports stored complete and equal to the reference, the caller must have seen the I/O error, and an identical retry must succeed and leave valid data. Thorough adds a second fault during the retry. In addition, exceptions raised by plugin computations, chunk writes and chunk reads and an abandoned iterator at every (stage, chunk) position of 74 pipeline cells x processors are executed over every thread schedule with <= 0-1 delays under the controlled scheduler, with the same fresh-context storage post-condition.",
     "process death = no later file-system operation happens (completed ones persist); threaded histories run under the deterministic default schedule of the controlled scheduler; no real forked savers",
     "exhaustive fault / crash-point enumeration over the logged write history of the implementation (file-system interposer)", "fsfault")
 add("C05", "model_checking",
